@@ -137,7 +137,7 @@ def gen_plan(r, tier, index):
         "coll_bufsize": r.choice([-1, -1, 0, 40, 1 << 20]),
         "h2": r.choice(["", "", "comment", "c" * 300]), "b0len": r.choice([0, 0, 7, 64]),
         "committed": committed, "session": session,
-        "max_stream": 1200 if tier == "quick" else 65536,
+        "max_stream": 1200 if tier == "quick" else 16384,
         "sample_seed": r.randrange(1 << 30),
     }
     if live:
@@ -348,7 +348,7 @@ def _recover(res, kind, image, plan, exp, stale_blobs, sig_base, ctx, depth=0):
                         h2.close()
                         return
                 h2.close()
-                if kind == "a_crash2" and depth == 0:
+                if kind == "a_crash2" and depth == 0 and (len(image) < 6000 or (len(image) + plan["sample_seed"]) % 7 == 0):
                     _second_crash(res, kern, image, plan, exp, visible, sig_base, ctx)
         elif kind == "mlib_r":
             import molli as ml
